@@ -54,9 +54,9 @@ ASSUMPTIONS = ['vp.models.edscript (script deriver + strict reference interprete
 ANCHORS = ['debian.debian_support:patches_from_ed_script', 'debian.debian_support:patch_lines']
 MUST_REACH = list(ANCHORS)
 
-PAIRS = {'quick': 20000, 'thorough': 1000000}
-MALFORMED = {'quick': 6000, 'thorough': 200000}      # base scripts; each yields 1 corruption (+ truncations)
-DIFFE = {'quick': 600, 'thorough': 80000}
+PAIRS = {'quick': 100000, 'thorough': 5000000}
+MALFORMED = {'quick': 18000, 'thorough': 900000}      # base scripts; each yields 2 corruptions + up to 4 truncations
+DIFFE = {'quick': 3000, 'thorough': 300000}
 
 FLOORS = {
     'quick': {'nontrivial': 15000,
@@ -77,6 +77,8 @@ DIFFE_FLOOR = {'quick': 300, 'thorough': 40000}      # only demanded when `diff`
 ALPHA = ['a', 'b', 'c', '', 'x y', '..', '. ', ' .', '.x', '...', '1a', '2,3d', 'd', '0a', '3c', '1,2c', 'a.',
          'é', '١a', '\t', 'x\r', '.\r', 's/.//', 'w', 'q']
 SRC = ('list', 'iter', 'file')
+# anything printable that is not a/c/d, not a digit (that would be 'missing letter'), not ',' and not blank
+BAD_LETTERS = [ch for ch in map(chr, range(33, 127)) if ch not in 'acd,' and not ch.isdigit()]
 
 
 # ---------------------------------------------------------------------------
@@ -167,7 +169,7 @@ def corrupt(r, script, blocks):
             bad = r.choice(['%d,%da\n' % (n, n), '%d,%da\n' % (n, n + 1), '%d,%da\n' % (max(n, 1), max(n, 1)),
                             '%d,%da\n' % (max(n - 1, 0), n)])
     if cls == 'bad-letter':
-        bad = address + r.choice(['x', 'i', 's', 'w', 'q', 'j', 'm', 'p', 'A', 'C', 'D', 'r', '=']) + '\n'
+        bad = address + r.choice(BAD_LETTERS) + '\n'
     elif cls == 'missing-letter':
         bad = address + '\n'
     elif cls == 'missing-number':
@@ -185,8 +187,6 @@ def corrupt(r, script, blocks):
         bad = address + letter + r.choice(['d', 'a', '1', '!', 'p', '\r', ',', '.']) + '\n'
     elif cls == 'non-decimal':
         bad = r.choice(['0x' + address, address.split(',')[0] + '.0', '1e1', '$', '.', "'a", '/x/', '%']) + letter + '\n'
-        if bad == '.' + letter + '\n' and False:
-            pass
     s = list(script)
     s[i] = bad
     return cls, i, s
@@ -248,9 +248,10 @@ def cases(ctx):
         if not blocks:
             continue
         n += 1
-        cls, at, bad = corrupt(r, script, blocks)
-        yield {'kind': 'malformed', 'old': old, 'script': bad, 'class': cls, 'at': at, 'src': r.choice(SRC),
-               'mode': 'both'}
+        for _ in range(2):
+            cls, at, bad = corrupt(r, script, blocks)
+            yield {'kind': 'malformed', 'old': old, 'script': bad, 'class': cls, 'at': at, 'src': r.choice(SRC),
+                   'mode': 'both'}
         for tag, cut in truncations(r, script, blocks):
             yield {'kind': 'malformed', 'old': old, 'script': cut, 'class': 'truncation', 'cut': tag,
                    'src': r.choice(SRC), 'mode': 'both'}
